@@ -89,6 +89,7 @@ class Fn:
         P = cxx2c.Printer(self.cname, self.types, self.calls, self.members, self.hooks, self.self_struct,
                           self.aggregates, self.stmt_hooks, self.uf_float, opaque=self.opaque, dtors=self.dtors)
         P.ref_member_pointers = self.ref_member_pointers
+        P.tu = self.tu
         P.default_file = loc.get('file') or loc.get('expansionLoc', {}).get('file') or loc.get('spellingLoc', {}).get('file') or astload.resolve_tu(self.tu)
         P.field_init = lambda cls, fld, d=d: (astload.field_initializer(self.tu, cls, fld) or
                                                (astload.field_default_init(self.tu, d, fld) if d.get('kind') == 'CXXConstructorDecl' else None))
@@ -186,6 +187,9 @@ class Target:
             P = f.printer
             texts.append(text)
             protos.update(P.protos)
+            if P.auto_texts:
+                protos[f'nv_auto:{P.cname}'] = '\n'.join(P.auto_texts)
+                info.setdefault('auto_extracted_helpers', []).extend(sorted(P.auto_fns.values()))
             loops += [f'NV_LOOP_{P.cname}_{i}' for i in range(1, P.loops + 1)]
             src = astload.resolve_tu(f.tu)
             info['functions'].append({'c_name': f.cname, 'cxx': f.name, 'file': src, 'line': f.line,
@@ -233,6 +237,8 @@ class Target:
                 pm = re.search(r'(\w+)$', prm.strip())
                 if pm:
                     out.append(f'#define NV_ARG_{f.cname}_{k} {pm.group(1)}')
+            for k, nm in sorted(f.printer.loop_counters.items()):
+                out.append(f'#define NV_LOOPVAR_{f.cname}_{k} {nm}')
         for f in present:
             out.append(f'#ifndef NV_CONTRACT_{f.cname}\n#define NV_CONTRACT_{f.cname}\n#endif')
         for m in loops:
